@@ -60,6 +60,10 @@ def make_options(rng):
         o["stop_words"] = "english"
     elif r < 0.5:
         o["stop_words"] = ["aa", "the", "Cat"]
+    elif r < 0.62:
+        # entries that contain a space: scikit-learn compares the stop list with single tokens only, so they are inert
+        w = [WORDS[i] for i in rng.randint(len(WORDS), size=4)]
+        o["stop_words"] = [w[0], "%s %s" % (w[1], w[2]), "%s %s" % (w[2], w[1]), "%s %s %s" % (w[0], w[3], w[1])]
     if rng.rand() < 0.35:
         o["lowercase"] = False
     if rng.rand() < 0.25:
@@ -217,6 +221,39 @@ def run_case(case, ctx):
                 ctx.violation(K + "vocabulary-column/after-set_params", "after set_params and a refit vocabulary_ no "
                               "longer maps token tuples to scikit-learn's columns", cfg=cfg2)
                 break
+        # history: the stop list OBJECT each vectorizer holds is extended in place between two fits ("append the top
+        # terms and fit again"): the effective stop list is rebuilt from the parameter at every fit and transform
+        sl_p, sl_c = ["the"], ["the"]
+        try:
+            p2 = Parent(**dict(o, stop_words=sl_p))
+            c2 = Child(**dict(o, stop_words=sl_c))
+            for step in range(3):
+                hp, hep = attempt(lambda: p2.fit_transform(corpus))
+                hc, hec = attempt(lambda: c2.fit_transform(corpus))
+                ctx.hit("history.stop_list_mutated")
+                if hep is not None or hec is not None:
+                    if (hep is None) != (hec is None):
+                        ctx.violation(K + "refusal-differs/stop-list-mutated", "scikit-learn: %r, traceable: %r" % (
+                            hep, hec), cfg=cfg)
+                        break
+                elif hp.shape != hc.shape or not numpy.allclose(hc.toarray(), hp.toarray(), **tol) or \
+                        {" ".join(k): v for k, v in c2.vocabulary_.items()} != dict(p2.vocabulary_):
+                    ctx.violation(K + "matrix-differs/stop-list-mutated-in-place", "after the stop list object was "
+                                  "extended in place (step %d: %r) and the vectorizer fitted again, matrix or "
+                                  "vocabulary differ from scikit-learn's" % (step, sl_c), cfg=cfg)
+                    break
+                add = [WORDS[(case["sub"] + step) % len(WORDS)], WORDS[(case["sub"] + 2 * step + 1) % len(WORDS)].lower()]
+                sl_p.extend(add)
+                sl_c.extend(add)
+                tq, tqe = attempt(lambda: p2.transform(other))
+                tcq, tcqe = attempt(lambda: c2.transform(other))
+                if tqe is None and tcqe is None and (tq.shape != tcq.shape or not numpy.allclose(
+                        tcq.toarray(), tq.toarray(), **tol)):
+                    ctx.violation(K + "transform-differs/stop-list-mutated-in-place", "transform after the stop list "
+                                  "object was extended in place differs from scikit-learn's", cfg=cfg)
+                    break
+        except Exception as e:
+            ctx.violation(K + "raised/%s/stop-list-history" % type(e).__name__, str(e)[:150], cfg=cfg)
         if len(vp) >= 3 and any(len(k) >= 2 for k in vc if isinstance(k, tuple)):
             ctx.nontriv(cfg)
         ctx.sample({"cfg": cfg, "n_terms": len(vc), "first_terms": sorted(vc, key=vc.get)[:4]})
